@@ -145,11 +145,16 @@ pub fn make_module() -> KMap {
         match ctx.instance_and_args(is_list, expected_error)? {
             (KValue::List(l), [KValue::Number(n), value]) => {
                 let index: usize = n.into();
-                if *n < 0.0 || index > l.data().len() {
-                    return runtime_error!("index out of bounds");
-                }
+                {
+                    // The bounds check and the insertion need to share a single borrow,
+                    // otherwise the list could be modified via another thread in between.
+                    let mut data = l.data_mut();
+                    if *n < 0.0 || index > data.len() {
+                        return runtime_error!("index out of bounds");
+                    }
 
-                l.data_mut().insert(index, value.clone());
+                    data.insert(index, value.clone());
+                }
                 Ok(KValue::List(l.clone()))
             }
             (instance, args) => unexpected_args_after_instance(expected_error, instance, args),
@@ -207,11 +212,14 @@ pub fn make_module() -> KMap {
         match ctx.instance_and_args(is_list, expected_error)? {
             (KValue::List(l), [KValue::Number(n)]) => {
                 let index: usize = n.into();
-                if *n < 0.0 || index >= l.data().len() {
+                // The bounds check and the removal need to share a single borrow,
+                // otherwise the list could be modified via another thread in between.
+                let mut data = l.data_mut();
+                if *n < 0.0 || index >= data.len() {
                     return runtime_error!("index out of bounds");
                 }
 
-                Ok(l.data_mut().remove(index))
+                Ok(data.remove(index))
             }
             (instance, args) => unexpected_args_after_instance(expected_error, instance, args),
         }
